@@ -40,6 +40,14 @@ type MemoWork struct {
 
 func (w *MemoWork) Sim() SimSpec { return w.P }
 
+// life is the lifetime of a cached value: a default expiration of zero or less means "never".
+func (w *MemoWork) life() int64 {
+	if w.ExpNs <= 0 {
+		return 1 << 60
+	}
+	return w.ExpNs
+}
+
 func (w *MemoWork) Key() string {
 	return fmt.Sprintf("c17/%d/%d/%d/%v/%v/%d/tf=%v/kk=%d", w.ExpNs, w.CleanNs, w.Keys, w.Tasks, w.Beh, w.Held, w.P.TimeFaults, w.KeyKind)
 }
@@ -423,7 +431,7 @@ func (w *MemoWork) Post(out *RunOut) {
 			}
 			switch {
 			case !cur.ok || e.End > cur.dhi:
-				cur = entry{val: 1000 + i, dlo: e.End + w.ExpNs, dhi: l.TR + w.ExpNs, since: l.Ret, ok: true}
+				cur = entry{val: 1000 + i, dlo: e.End + w.life(), dhi: l.TR + w.life(), since: l.Ret, ok: true}
 				entries = append(entries, cur)
 			case l.TR < cur.dlo:
 				// a live entry exists during the whole store window: insert-if-absent keeps it
@@ -481,9 +489,13 @@ func (w *MemoWork) Post(out *RunOut) {
 func genC17(r *simrt.Rand, tier string, idx uint64) Workload {
 	w := &MemoWork{Held: -1}
 	w.ExpNs = []int64{50 * ms, int64(time.Second)}[r.Intn(2)]
-	if r.Intn(10) == 0 {
+	switch r.Intn(12) {
+	case 0:
 		// a memoizer used for call coalescing only: what is cached expires (practically) at once
 		w.ExpNs = []int64{1, 1 * ms}[r.Intn(2)]
+	case 1:
+		// a memoizer whose values never expire (default expiration zero or NoExpiration)
+		w.ExpNs = []int64{0, -1}[r.Intn(2)]
 	}
 	w.CleanNs = []int64{0, 20 * ms}[r.Intn(2)]
 	w.Keys = 1 + r.Intn(3)
@@ -517,7 +529,11 @@ func genC17(r *simrt.Rand, tier string, idx uint64) Workload {
 	// ~string type whose printed form masks the key, sometimes keys differing only in case/blanks
 	w.KeyKind = []int{0, 0, 0, 0, 1, 1, 2, 3, 3, 4}[r.Intn(10)]
 	// call instants: same instant, staggered inside/outside the callback latency, around the expiry instant
-	instants := []int64{0, 0, 0, 1, 2 * ms, 5 * ms, 5*ms + 1, 29 * ms, 30 * ms, 31 * ms, w.ExpNs - 1, w.ExpNs, w.ExpNs + 1, w.ExpNs + 5*ms, w.ExpNs + 30*ms, 2 * w.ExpNs}
+	span := w.ExpNs // the scale of the call instants
+	if span <= 0 {
+		span = 50 * ms
+	}
+	instants := []int64{0, 0, 0, 1, 2 * ms, 5 * ms, 5*ms + 1, 29 * ms, 30 * ms, 31 * ms, span - 1, span, span + 1, span + 5*ms, span + 30*ms, 2 * span}
 	for t := 0; t < nt; t++ {
 		n := 1 + r.Intn(3)
 		if nt == 1 {
@@ -532,7 +548,7 @@ func genC17(r *simrt.Rand, tier string, idx uint64) Workload {
 			}
 			step := instants[r.Intn(len(instants))]
 			if r.Bool(0.2) {
-				step = r.Int63n(2 * w.ExpNs)
+				step = r.Int63n(2 * span)
 			}
 			if j == 0 {
 				at = step
@@ -554,7 +570,7 @@ func genC17(r *simrt.Rand, tier string, idx uint64) Workload {
 		w.P.TimeFaults = true
 		w.P.StallP = []float64{0.02, 0.06}[r.Intn(2)]
 		w.P.JumpP = []float64{0, 0.01}[r.Intn(2)]
-		w.P.DeltasNs = []int64{1, 5 * ms, 30 * ms, w.ExpNs - 1, w.ExpNs, w.ExpNs + 1, 2 * w.ExpNs}
+		w.P.DeltasNs = []int64{1, 5 * ms, 30 * ms, span - 1, span, span + 1, 2 * span}
 		w.P.JumpsNs = []int64{int64(time.Second), int64(time.Hour)}
 		w.P.FaultSteps = 1 << 30
 	}
